@@ -73,6 +73,140 @@ func runC17(ctx *report.Ctx) {
 			ctx.Violation(report.Violation{Clause: "command-sequence", Witness: "cmds:" + strings.ReplaceAll(srcs[0], "\n", " / "), Detail: mm, Choices: c.Choices(), Part: "sequences", Extra: map[string]any{"scripts": srcs}})
 		}
 	})
+	// two-runners: two runners of one script in one process, each with its own registrations (raw or converted, under one,
+	// both or none of the two names, in every order of creation and registration): a command reaches the handler
+	// registered under its name on the runner that executes it - and no other; a name not registered there is an error
+	part(ctx, "two-runners", -1, func(c *explore.Chooser) {
+		type side struct {
+			converted bool
+			names     int // bit 0: ping, bit 1: pong
+			log       []string
+			dr        *yc.Real
+		}
+		var sides [2]*side
+		for i := range sides {
+			sides[i] = &side{converted: c.Choose(2, "registration-route") == 1, names: c.Choose(4, "registered-names")}
+		}
+		order := c.Choose(3, "order")
+		if !c.Mine() {
+			return
+		}
+		script := "title: A\n---\n<<ping 1 a>>\nl1\n<<pong 2 b>>\nl2\n===\n"
+		w := fmt.Sprintf("two runners of <<ping 1 a>> l1 <<pong 2 b>> l2: first {converted=%v names=%02b} second {converted=%v names=%02b} order %d", sides[0].converted, sides[0].names, sides[1].converted, sides[1].names, order)
+		ctx.Current("two-runners: " + w)
+		create := func(i int) bool {
+			r, err, pan := yc.NewReal([]string{script}, "abc", nil)
+			if err != nil || pan != "" {
+				ctx.HarnessError("C17: harness script does not load: %v %s", err, pan)
+				return false
+			}
+			sides[i].dr = r
+			return true
+		}
+		register := func(i int) {
+			sd := sides[i]
+			for bit, name := range []string{"ping", "pong"} {
+				if sd.names&(1<<bit) == 0 {
+					continue
+				}
+				tag := fmt.Sprintf("runner%d:%s", i, name)
+				if sd.converted {
+					sd.dr.DR.ConvertAndAddCommand(name, func(n int, word string) { sd.log = append(sd.log, fmt.Sprintf("%s(%d,%s)", tag, n, word)) })
+				} else {
+					sd.dr.DR.AddCommand(name, func(args []*variable.Value) <-chan error {
+						sd.log = append(sd.log, fmt.Sprintf("%s(%s)", tag, yc.ArgsString(yc.RealArgs(args))))
+						ch := make(chan error, 1)
+						ch <- nil
+						return ch
+					})
+				}
+			}
+		}
+		switch order {
+		case 0:
+			if !create(0) {
+				return
+			}
+			register(0)
+			if !create(1) {
+				return
+			}
+			register(1)
+		case 1:
+			if !create(0) || !create(1) {
+				return
+			}
+			register(0)
+			register(1)
+		default:
+			if !create(1) {
+				return
+			}
+			register(1)
+			if !create(0) {
+				return
+			}
+			register(0)
+		}
+		ctx.AddEvals(1, 1)
+		ctx.AddStates(1)
+		ctx.AddTraces(1)
+		fail := func(detail string) {
+			ctx.Violation(report.Violation{Clause: "command-other-runner", Witness: w, Detail: detail, Choices: c.Choices(), Part: "two-runners", Extra: map[string]any{"scripts": []string{script}}})
+		}
+		// the two runners are stepped alternately; a converted handler runs in a goroutine: poll until it has completed
+		next := func(sd *side) yc.RealObs {
+			for tries := 0; ; tries++ {
+				ro := sd.dr.Next(0)
+				ctx.AddTransitions(1)
+				if !ro.Waiting || tries > 200000 {
+					return ro
+				}
+				time.Sleep(10 * time.Microsecond)
+			}
+		}
+		for step, name := range []string{"ping", "pong"} {
+			for i, sd := range sides {
+				ro := next(sd)
+				if ro.Panic != "" {
+					fail(fmt.Sprintf("runner %d: Next panicked at <<%s>>: %s", i, name, ro.Panic))
+					return
+				}
+				registered := sd.names&(1<<step) != 0
+				isErr := ro.K == yc.OError
+				if isErr {
+					ro = next(sd)
+				}
+				want := fmt.Sprintf("l%d", step+1)
+				if ro.K != yc.OLine || ro.Text != want {
+					fail(fmt.Sprintf("runner %d: after <<%s>> expected the line %s, got %s", i, name, want, ro.String()))
+					return
+				}
+				if registered == isErr {
+					fail(fmt.Sprintf("runner %d: <<%s>> registered on this runner: %v, Next returned an error: %v", i, name, registered, isErr))
+					return
+				}
+			}
+		}
+		for i, sd := range sides {
+			var want []string
+			for bit, name := range []string{"ping", "pong"} {
+				if sd.names&(1<<bit) == 0 {
+					continue
+				}
+				args := [][2]string{{"1", "a"}, {"2", "b"}}[bit]
+				if sd.converted {
+					want = append(want, fmt.Sprintf("runner%d:%s(%s,%s)", i, name, args[0], args[1]))
+				} else {
+					want = append(want, fmt.Sprintf("runner%d:%s(%s)", i, name, yc.ArgsString([]yc.Value{yc.Num(float64(bit + 1)), yc.Str(args[1])})))
+				}
+			}
+			if strings.Join(sd.log, ";") != strings.Join(want, ";") {
+				fail(fmt.Sprintf("runner %d: handler invocations expected [%s], got [%s]", i, strings.Join(want, ";"), strings.Join(sd.log, ";")))
+				return
+			}
+		}
+	})
 	// loop: a command whose arguments are (compound) inline expressions over variables, executed three times by one
 	// runner (a node re-entered through a jump) while the variables change: the handler gets the values of now
 	loopArgs := []*yc.Expr{yc.EVariable("v"), yc.EBinary("*", yc.EVariable("v"), yc.ENumber(2)), yc.ENegate(yc.EVariable("v")), yc.ENotOf(yc.EVariable("b")),
